@@ -330,7 +330,7 @@ class Repo:
         self.launch_prefix = [sys.executable, "-c",
                               "import os,resource,sys; h=resource.getrlimit(resource.RLIMIT_NOFILE)[1]; resource.setrlimit(resource.RLIMIT_NOFILE,(%d,h)); os.execv(sys.argv[1], sys.argv[1:])" % n]
 
-    def mr(self, *args, env=None, timeout=120, stdin=None, cwd=None, nofile=None):
+    def mr(self, *args, env=None, timeout=120, stdin=None, cwd=None, nofile=None, cpus=None):
         """Runs the hooks-on monorail binary in the repository; returns Result."""
         if getattr(self, "invoke_cwd", None) and cwd is None and "-f" not in args:
             cwd = self.invoke_cwd
@@ -342,6 +342,8 @@ class Repo:
             if nofile:
                 import resource
                 pre = lambda: resource.setrlimit(resource.RLIMIT_NOFILE, (nofile, nofile))   # a small descriptor limit
+            if cpus:
+                pre = lambda: os.sched_setaffinity(0, cpus)   # like `taskset -c`: a container or VM with that many CPUs
             r = subprocess.run([common.MONORAIL] + list(args), cwd=cwd or self.dir, env=e,
                                capture_output=True, timeout=timeout, input=stdin, preexec_fn=pre)
         except subprocess.TimeoutExpired:
